@@ -175,15 +175,15 @@ def s08_generated(ctx):
     from harness.common import area_rows, lines as wlines, rat as wrat
 
     res = StreamResult("S08-generated", rule="regenerated determine_boundary_intersecting_lines (Lean, compiled) vs the real function: lines in / across a box area "
-                       "with 0, 1 or 2 ends exactly on its boundary, lines crossing it entirely, lines outside; thresholds 0.01 / 0.001; also [intersecting] + [cuts through] "
+                       "with 0, 1 or 2 ends exactly on its boundary, lines crossing it entirely, lines outside, optionally a second disjoint area row (before or after) whose candidate "
+                       "window overlaps the first; thresholds 0.01 / 0.001; also [intersecting] + [cuts through] "
                        "= number of ends on the boundary for lines that end inside or on it; non-trivial = a line with an end on the boundary")
-    if ctx.gen is None:
-        res.note = "gen_c08 not built (a generated module is broken): skipped"
-        res.skipped["generated_driver_not_built"] = 1
-        return res
     rng = rng_for(ctx.seed, "S08g")
     cases, reqs = [], []
     area = box(-8.0, -8.0, 8.0, 8.0)
+    # a second, disjoint area to the right: its candidate window (bounds + 100 x threshold) overlaps the first area's, so
+    # lines of the first area are candidates of the second as well
+    area2 = box(8.5, -20.0, 20.0, 20.0)
 
     def inside():
         return (rng.randint(-28, 28) / 4, rng.randint(-28, 28) / 4)
@@ -193,7 +193,7 @@ def s08_generated(ctx):
         return rng.choice([(8.0, s_), (-8.0, s_), (s_, 8.0), (s_, -8.0)])
 
     def outside():
-        return (rng.choice([-1, 1]) * rng.randint(40, 60) / 4, rng.randint(-60, 60) / 4)
+        return (-rng.randint(40, 60) / 4, rng.randint(-60, 20) / 4)
 
     for _ in range(budget(ctx.tier, 150, 2500)):
         t = rng.choice([0.01, 0.001])
@@ -207,9 +207,9 @@ def s08_generated(ctx):
             elif kind == "two":
                 a, b, k = on_boundary(), on_boundary(), 2
             elif kind == "through":
-                a, b, k = (-12.0, rng.randint(-20, 20) / 4), (12.0, rng.randint(-20, 20) / 4), None
+                a, b, k = (-12.0, rng.randint(-20, 20) / 4), (-12.0 + 24.0, rng.randint(-20, 4) / 4), None
             else:
-                a, b, k = outside(), (outside()[0], 20.0), None
+                a, b, k = outside(), (outside()[0], -20.0), None
             if a == b or (kind == "two" and (a[0] == b[0] and abs(a[0]) == 8.0 or a[1] == b[1] and abs(a[1]) == 8.0)):
                 continue  # degenerate / lying along an edge
             if rng.random() < 0.5:
@@ -218,20 +218,30 @@ def s08_generated(ctx):
             ends_on.append(k)
         if not ls:
             continue
-        cases.append((t, ls, ends_on))
-        reqs.append(f"blines t={wrat(t)} areas={area_rows([area])} lines={wlines(ls)}")
-    resps = ctx.gen.parallel(reqs)
-    for (t, ls, ends_on), req, resp in zip(cases, reqs, resps):
+        areas = [area]
+        if rng.random() < 0.5:
+            areas = [area, area2] if rng.random() < 0.5 else [area2, area]
+        cases.append((t, ls, ends_on, areas))
+        reqs.append(f"blines t={wrat(t)} areas={area_rows(areas)} lines={wlines(ls)}")
+    if ctx.gen is None:
+        res.note = "gen_c08 not built (a generated module is broken): the regenerated code is not compared, the documented count still is"
+        res.skipped["generated_driver_not_built"] = 1
+        resps = [None] * len(reqs)
+    else:
+        resps = ctx.gen.parallel(reqs)
+    for (t, ls, ends_on, areas), req, resp in zip(cases, reqs, resps):
         res.evaluations += 1
-        r = parse_resp(resp)
-        got = ([x == "1" for x in r["intersecting"].split(",")], [x == "1" for x in r["cuts"].split(",")])
-        i_, c_ = determine_boundary_intersecting_lines(gpd.GeoDataFrame(geometry=[LineString(l) for l in ls]), gpd.GeoDataFrame(geometry=[area]), t)
+        i_, c_ = determine_boundary_intersecting_lines(gpd.GeoDataFrame(geometry=[LineString(l) for l in ls]), gpd.GeoDataFrame(geometry=areas), t)
         want = ([bool(x) for x in i_], [bool(x) for x in c_])
         res.nontrivial += int(any(k in (1, 2) for k in ends_on))
-        if got != want:
-            res.disagreements.append(Disagreement("S08-generated", {"stream": "S08-generated", "request": req}, got, want, None,
-                                                  "regenerated determine_boundary_intersecting_lines (Lean) and the Python function disagree"))
-            continue
+        res.distribution["areas=%d" % len(areas)] = res.distribution.get("areas=%d" % len(areas), 0) + 1
+        if resp is not None:
+            r = parse_resp(resp)
+            got = ([x == "1" for x in r["intersecting"].split(",")], [x == "1" for x in r["cuts"].split(",")])
+            if got != want:
+                res.disagreements.append(Disagreement("S08-generated", {"stream": "S08-generated", "request": req}, got, want, None,
+                                                      "regenerated determine_boundary_intersecting_lines (Lean) and the Python function disagree"))
+                continue
         for k, a, b in zip(ends_on, want[0], want[1]):
             if k is not None and int(a) + int(b) != k:
                 res.disagreements.append(Disagreement("S08-generated", {"stream": "S08-generated", "request": req}, k, int(a) + int(b), True,
